@@ -320,6 +320,23 @@ def op_table(o: Operands, subset=False):
             add("concatenate", f"concatenate([tiny2]*{k},1)", lambda k=k: sparse.concatenate([tiny2] * k, axis=1), not subset)
             add("gcxs-join", f"stack([tiny2.gcxs]*{k},0)", lambda k=k: sparse.stack([tiny2.asformat("gcxs")] * k, axis=0), not subset)
             add("gcxs-join", f"stack([tiny.gcxs]*{k},0)", lambda k=k: sparse.stack([tiny.asformat("gcxs")] * k, axis=0))
+    # operands of DIFFERENT index types: a narrow-index operand broadcast against a wide-index operand that has more rows than the narrow
+    # type can count (the matched / broadcast coordinates come from the wide operand)
+    if nd == 1:
+        m = 4
+        nar1 = o.mk(np.array([[0, 2, 3]]), np.array([2, 3, 4]), (m,))
+        nar2 = o.mk(np.array([[0, 0, 0], [0, 2, 3]]), np.array([2, 3, 4]), (1, m))
+        wrows, wcols = np.array([0, 1, L - 1, L, L + 1, L + 1]), np.array([0, 2, 3, 0, 2, 3])
+        wide = sparse.COO(np.stack([wrows, wcols]).astype(np.int64), np.arange(1, 7), shape=(L + 2, m), has_duplicates=False, sorted=True)
+        widef = sparse.COO(np.stack([wrows, wcols]).astype(np.int64), np.arange(1, 7), shape=(L + 2, m), has_duplicates=False, sorted=True, fill_value=1)
+        for nm, nar in (("nar(m,)", nar1), ("nar(1,m)", nar2)):
+            add("elemwise", f"{nm}*wide", lambda nar=nar: nar * wide)
+            add("elemwise", f"wide*{nm}", lambda nar=nar: wide * nar)
+            add("elemwise", f"{nm}+wide", lambda nar=nar: nar + wide)
+            add("elemwise", f"maximum({nm},wide)", lambda nar=nar: sparse.elemwise(np.maximum, nar, wide), not subset)
+            add("elemwise", f"{nm}*wide(fill 1)", lambda nar=nar: nar * widef, not subset)
+            add("elemwise", f"where(wide>2,{nm},wide)", lambda nar=nar: sparse.where(wide > 2, nar, wide), not subset)
+            add("gcxs-elemwise", f"gcxs {nm}*wide", lambda nar=nar: nar.asformat("gcxs") * wide.asformat("gcxs"), not subset)
     add("concatenate", "concatenate(axis=None)", lambda: sparse.concatenate([x, y], axis=None), not subset)
     # ---- roll / flip ----------------------------------------------------------------------------
     for sh in (1, -1, e - 1, -(e - 1), e, 2 * e + 1, L - e + 1, L - e, L, -L, 100, -100):
